@@ -672,6 +672,14 @@ def rel_candidates(base, target):
             out.append(qf)
         if tq == bq:
             out.append(("#" + tf) if tf is not None else "")
+    # dot segments inside the reference (RFC 3986 5.2.4 removes them wherever they stand)
+    for c in list(out):
+        if c and c[0] not in "/?#" and not c.startswith("//"):
+            out.append("zz/../" + c)
+            if "/" in c.split("?")[0].split("#")[0]:
+                out.append(c.replace("/", "/./", 1))
+        elif c.startswith("/") and not c.startswith("//"):
+            out.append("/zz/.." + c)
     return out
 
 
@@ -831,7 +839,8 @@ class TurtleWriter:
             if rel is not None:
                 self.flags.add("rel_" + ("empty" if rel == "" else "netpath" if rel.startswith("//") else "abspath" if rel.startswith("/")
                                          else "query" if rel.startswith("?") else "fragment" if rel.startswith("#")
-                                         else "dotdot" if rel.startswith("..") else "dot" if rel.startswith(".") else "relpath"))
+                                         else "dotdot" if rel.startswith("..") else "dot" if rel.startswith(".")
+                                         else "inner_dots" if "/./" in rel or "/../" in rel else "relpath"))
                 return "<" + "".join(uescape(rng, c) if (c in '<>"{}|^`\\' or ord(c) <= 0x20) else c for c in rel) + ">"
         return nt_iri(rng, s, esc=rng.choice([0.0, 0.0, 0.1]))
 
